@@ -301,6 +301,18 @@ func runC19(seed int64, n int, dir string, tier string) *Report {
 				if id == "" || err != nil || !st.IsDir() {
 					continue
 				}
+				if force == nil && g.Chance(0.15) {
+					// the whole directory goes away (cleaned up, volume remounted): the next store has to create it again
+					_ = os.RemoveAll(sdir)
+					for k := range expect {
+						delete(expect, k)
+					}
+					ops = append(ops, "PWipe")
+					outs = append(outs, "(0, 0)")
+					desc = append(desc, map[string]any{"op": "fault: store directory removed"})
+					rep.Count("op=fault:directory-removed")
+					continue
+				}
 				p := filepath.Join(sdir, entryName(id))
 				delete(expect, id)
 				switch f := g.Int(5); f {
@@ -380,6 +392,9 @@ func runC19(seed int64, n int, dir string, tier string) *Report {
 		_ = os.Chmod(sdir, 0o755)
 		_ = os.RemoveAll(base)
 	}
+	for j := 0; j < n/2+1; j++ {
+		rep.sameProcessHistory(g, cf)
+	}
 	rep.CasesFiles = cf.Write(filepath.Join(dir, "cases_C19"))
 	rep.ShardSize = shardSize
 	return rep
@@ -408,3 +423,141 @@ func (r *Report) c19Abnormal(co childOut, desc []any) {
 }
 
 func decodeB64(s string) ([]byte, error) { return base64.StdEncoding.DecodeString(s) }
+
+// sameProcessHistory: a whole history of stores, retrieves, entry removals and removals of the directory
+// itself executed by ONE process (whatever the library remembers between calls is part of the history),
+// compared with the model and with what was last stored under each identifier.
+func (rep *Report) sameProcessHistory(g *gen.G, cf *CasesFile) {
+	base, err := os.MkdirTemp("", "verif-c19p-")
+	if err != nil {
+		die("%v", err)
+	}
+	defer os.RemoveAll(base)
+	type docT struct {
+		tok   int
+		id    string
+		bytes []byte
+		file  string
+	}
+	ids := []string{"x", "y", "sp ace"}
+	var docs []docT
+	for k := 0; k < 4; k++ {
+		d := sbom.NewDocument()
+		d.Metadata.Id = ids[k%3] // the fourth document is another version of the first
+		d.Metadata.Name = fmt.Sprintf("doc%d", k)
+		d.NodeList = g.NodeList(gen.Shape{MaxNodes: 3, MaxEdges: 3, WellFormed: true, Richness: 0.3})
+		b, _ := proto.MarshalOptions{Deterministic: true}.Marshal(d)
+		f := filepath.Join(base, fmt.Sprintf("doc%d.pb", k))
+		_ = os.WriteFile(f, b, 0o644)
+		docs = append(docs, docT{k + 1, d.Metadata.Id, b, f})
+	}
+	initState := gen.Pick(g, []int{0, 3})
+	sdir := filepath.Join(base, "store")
+	if initState == 3 {
+		_ = os.Mkdir(sdir, 0o755)
+	}
+	var script [][]string
+	var ops []string
+	for s := 4 + g.Int(8); s > 0; s-- {
+		switch k := g.Int(10); {
+		case k < 4:
+			d := gen.Pick(g, docs)
+			nc := g.Chance(0.3)
+			ncArg := fmt.Sprint(nc)
+			if !nc && g.Chance(0.3) {
+				ncArg = "nil" // Store(doc, nil)
+			}
+			script = append(script, []string{"store", d.file, ncArg})
+			ops = append(ops, fmt.Sprintf("(PStore (Some %d) %s)", d.tok, coqfmt.Bool(nc)))
+		case k < 7:
+			id := gen.Pick(g, append(ids, "unknown"))
+			script = append(script, []string{"retrieve", hex.EncodeToString([]byte(id))})
+			ops = append(ops, "(PRetrieve "+coqfmt.Str(id)+")")
+		case k < 9:
+			script = append(script, []string{"wipe"})
+			ops = append(ops, "PWipe")
+		default:
+			id := gen.Pick(g, ids)
+			script = append(script, []string{"remove", entryName(id)})
+			ops = append(ops, "(PRemove "+coqfmt.Str(id)+")")
+		}
+	}
+	var sb strings.Builder
+	for _, c := range script {
+		b, _ := json.Marshal(c)
+		sb.Write(b)
+		sb.WriteByte('\n')
+	}
+	sf := filepath.Join(base, "script.jsonl")
+	_ = os.WriteFile(sf, []byte(sb.String()), 0o644)
+	outb, _ := exec.Command(storechildPath(), "script", sdir, sf).Output()
+	lines := strings.Split(strings.TrimSpace(string(outb)), "\n")
+	rep.OracleEvals++
+	desc := []any{}
+	if len(lines) != len(script) {
+		rep.Fail(Failure{What: "a history of store operations run in one process ended early (process exit or crash)", Detail: fmt.Sprintf("%d of %d operations reported", len(lines), len(script)), Input: map[string]any{"script": script}})
+		return
+	}
+	expect := map[string]int{}
+	var outs []string
+	for i, c := range script {
+		co := childOut{}
+		_ = json.Unmarshal([]byte(lines[i]), &co)
+		tk := 0
+		if c[0] == "retrieve" && co.Outcome == "ok" {
+			raw, _ := base64.StdEncoding.DecodeString(co.Doc)
+			tk = -1
+			for _, d := range docs {
+				if string(raw) == string(d.bytes) {
+					tk = d.tok
+				}
+			}
+		}
+		if c[0] == "wipe" || c[0] == "remove" {
+			outs = append(outs, "(0, 0)")
+		} else {
+			outs = append(outs, outcomePair(co, tk))
+		}
+		desc = append(desc, map[string]any{"op": c, "outcome": co.Outcome, "error": co.Error, "document_token": tk})
+		rep.c19Abnormal(co, desc)
+		switch c[0] {
+		case "store":
+			if co.Outcome == "ok" {
+				for _, d := range docs {
+					if d.file == c[1] {
+						expect[d.id] = d.tok
+					}
+				}
+			}
+		case "wipe":
+			expect = map[string]int{}
+		case "remove":
+			for _, id := range ids {
+				if entryName(id) == c[1] {
+					delete(expect, id)
+				}
+			}
+		case "retrieve":
+			idb, _ := hex.DecodeString(c[1])
+			if want, known := expect[string(idb)]; known && (co.Outcome != "ok" || tk != want) {
+				rep.Fail(Failure{What: "in a history run by one process, a stored document is no longer returned although nothing touched its entry", Detail: fmt.Sprintf("outcome %s %s, document token %d, expected %d", co.Outcome, co.Error, tk, want), Input: map[string]any{"history": desc}})
+			}
+		}
+		rep.Count("same_process_op=" + c[0] + ":" + co.Outcome)
+	}
+	// a store into a usable (or creatable) directory of a document with an identifier succeeds unless no-clobber refuses it
+	for i, c := range script {
+		if c[0] == "store" && c[2] != "true" && !strings.HasPrefix(outs[i], "(0") {
+			rep.Fail(Failure{What: "in a history run by one process, a store into a directory that is missing or usable failed", Detail: fmt.Sprint(desc[i]), Input: map[string]any{"history": desc}})
+			break
+		}
+	}
+	var idtab []string
+	idtab = append(idtab, "(0, None)")
+	for _, d := range docs {
+		idtab = append(idtab, fmt.Sprintf("(%d, Some %s)", d.tok, coqfmt.Str(d.id)))
+	}
+	c := fmt.Sprintf("(mk_case19 [%s] %d [%s] [%s])", strings.Join(idtab, "; "), initState, strings.Join(ops, "; "), strings.Join(outs, "; "))
+	cf.Add(c)
+	rep.NoteCase(c, true, map[string]any{"kind": "history run by one process", "initial_directory": initState, "history": desc})
+}
